@@ -1072,7 +1072,7 @@ fn main() {
         // (b) every history of length <= 2 (q) / 3 (t) without de-duplication.
         let mut undeduped = 0;
         for off in offs {
-            run_bfs(off, ctx.tier.pick(4, 6), true, quick, &mut rep);
+            run_bfs(off, 12, true, quick, &mut rep);
             undeduped += run_all_histories(off, ctx.tier.pick(2, 3), true, &mut rep);
             if !quick {
                 undeduped += run_all_histories(off, 2, false, &mut rep);
@@ -1091,7 +1091,7 @@ fn main() {
         &ctx,
         rep,
         Spec {
-            rule: "E1: all 2^10 sets over heights off+1..=off+10 for off in {0, u64::MAX-10} x every operation (contains/len/is_empty/head/tail/left_of/right_of/partitions/iteration fwd,back,alternating/Display/serde/==/pop_head/pop_tail/headn/tailn/edges/insert_relaxed/remove_relaxed/union/difference/intersection in every operator form/complement and complement mixes) x every argument (heights: whole universe, its two outside neighbours, 0, 1, u64::MAX; n in 0..=12 and u64::MAX-1, u64::MAX; all 100 (a,b) pairs inside the universe plus ranges from 0; second operand: quick = all sets over 6 heights embedded at both ends of the universe (127), thorough = all 1024 sets); plus from_vec/TryFrom/Deserialize on every list of <=2 ranges with endpoints in {0} ∪ 5 heights, and the single-range helpers on all pairs of ranges. E2: BFS over histories of value-producing operations from the empty set, dedup on the real representation to depth 4 (q) / 6 (t) (reaches a fixpoint: all 1024 sets), and every history without dedup: length <= 2 (q) / <= 3 with the small operand alphabet and <= 2 with the large one (t). distinct = (set, operation, argument) by construction; non-trivial = stored set non-empty",
+            rule: "E1: all 2^10 sets over heights off+1..=off+10 for off in {0, u64::MAX-10} x every operation (contains/len/is_empty/head/tail/left_of/right_of/partitions/iteration fwd,back,alternating/Display/serde/==/pop_head/pop_tail/headn/tailn/edges/insert_relaxed/remove_relaxed/union/difference/intersection in every operator form/complement and complement mixes) x every argument (heights: whole universe, its two outside neighbours, 0, 1, u64::MAX; n in 0..=12 and u64::MAX-1, u64::MAX; all 100 (a,b) pairs inside the universe plus ranges from 0; second operand: quick = all sets over 6 heights embedded at both ends of the universe (127), thorough = all 1024 sets); plus from_vec/TryFrom/Deserialize on every list of <=2 ranges with endpoints in {0} ∪ 5 heights, and the single-range helpers on all pairs of ranges. E2: BFS over histories of value-producing operations from the empty set, dedup on the real representation until no new value appears (all 1024 sets of each universe, every one expanded with the whole alphabet; small operand alphabet in quick, 127 operands in thorough), and every history without dedup: length <= 2 (q) / <= 3 with the small operand alphabet and <= 2 with the large one (t). distinct = (set, operation, argument) by construction; non-trivial = stored set non-empty",
             assumptions: &[
                 "heights outside the two 10-height universes are represented only by the infinite tails that complement produces",
                 "left_of(0)/right_of(0): height 0 is not a height; the debug_assert on the argument (debug builds only) is accepted as outcome class debug-precondition-height-0, any other value than None would be a violation",
